@@ -3,6 +3,13 @@
 //!   c07_driver fee-replay <cases.ndjson>          spec -> code: cases enumerated by TLC (MC_Zip317)
 //!   c07_driver trace <out.ndjson> <n_random> <sweep:0|1|2>   code -> spec: seeded trace for Trace_ChangeStrategy
 //!   c07_driver exec <requests.ndjson> <out.ndjson>         re-executes logged requests (replay of a violation)
+//!   c07_driver_t trace-t <out.ndjson> <n_random> <sweep:0|1|2>   the same for the `transparent-inputs` configuration
+//!
+//! The source is compiled twice: as `c07_driver` in package h_tx (baseline feature set of zcash_client_backend)
+//! and as `c07_driver_t` in package h_wallet_t (wallet crates with `transparent-inputs`; that package's feature
+//! `transparent` is what `#[cfg(feature = "transparent")]` tests here). Only the second build can select the
+//! opt-in transparent change policy, sees transparent change values and has the ephemeral output of a ZIP 320
+//! step listed among the proposed change values; both log the same record format (`tfeat` says which build).
 //!
 //! The driver never computes an expected value: it materialises abstract requests as real calls of
 //! `FeeRule::fee_required` / `ChangeStrategy::compute_balance`, and logs the abstract request next
@@ -24,6 +31,8 @@ use zcash_client_backend::fees::{
     ChangeError, ChangeStrategy, DustAction, DustOutputPolicy, EphemeralBalance, SplitPolicy, StandardFeeRule,
     TransactionBalance, orchard as ofees, sapling as sfees,
 };
+#[cfg(feature = "transparent")]
+use zcash_client_backend::fees::TransparentChangePolicy;
 use zcash_primitives::transaction::fees::transparent::{InputSize, InputView as TInputView};
 use zcash_primitives::transaction::fees::zip317::{FeeError, FeeRule as PrimRule};
 use zcash_primitives::transaction::fees::FeeRule;
@@ -36,6 +45,8 @@ use zcash_transparent::address::Script;
 use zcash_transparent::bundle::{OutPoint, TxOut};
 
 const MAX_MONEY: u64 = 21_000_000 * 100_000_000;
+/// This build has the wallet crates' `transparent-inputs` (package h_wallet_t).
+const TFEAT: bool = cfg!(feature = "transparent");
 
 // ------------------------------------------------------------------------------------------------
 // numbers as little-endian decimal digit arrays
@@ -98,6 +109,7 @@ struct Req {
     oout: Vec<u64>,
     iin: Vec<u64>,
     iout: Vec<u64>,
+    tpol: bool, // TransparentChangePolicy::TransparentChangeAllowed (only the `transparent` build can apply it)
 }
 
 fn compact_size_len(n: usize) -> usize {
@@ -155,8 +167,10 @@ impl Req {
             "sin": dseq(&self.sin), "sout": dseq(&self.sout),
             "oin": dseq(&self.oin), "oout": dseq(&self.oout),
             "iin": dseq(&self.iin), "iout": dseq(&self.iout),
-            // this build of zcash_client_backend has no `transparent-inputs` feature: change is always shielded
-            "tpolicy": "shield",
+            // without the `transparent-inputs` feature of zcash_client_backend change is always shielded
+            "tpolicy": if TFEAT && self.tpol { "allowed" } else { "shield" },
+            // with the feature the ephemeral output of the step is listed among the proposed change values
+            "tfeat": TFEAT,
         })
     }
     fn from_json(q: &Value) -> Req {
@@ -202,6 +216,7 @@ impl Req {
             sin: undseq(&q["sin"]), sout: undseq(&q["sout"]),
             oin: undseq(&q["oin"]), oout: undseq(&q["oout"]),
             iin: undseq(&q["iin"]), iout: undseq(&q["iout"]),
+            tpol: q["tpolicy"].as_str() == Some("allowed"),
         }
     }
 }
@@ -262,7 +277,9 @@ fn p2pkh_script() -> Vec<u8> {
     s
 }
 fn script(bytes: Vec<u8>) -> Script {
-    Script(zcash_script::script::Code(bytes))
+    let mut s = Script::default();
+    s.0.0 = bytes;
+    s
 }
 fn notes_of(vs: &[u64]) -> Vec<Note> {
     vs.iter().enumerate().map(|(i, v)| Note { id: i as u32 + 1, v: zat(*v) }).collect()
@@ -361,6 +378,11 @@ fn abstract_outcome(
     Value::Object(o)
 }
 
+#[cfg(feature = "transparent")]
+fn tpolicy(req: &Req) -> TransparentChangePolicy {
+    if req.tpol { TransparentChangePolicy::TransparentChangeAllowed } else { TransparentChangePolicy::ShieldChange }
+}
+
 fn run_strategy<R>(rule: R, req: &Req) -> Value
 where
     R: Zip317FeeRule + Clone + FeeRule<Error = FeeError>,
@@ -434,6 +456,8 @@ where
 
     let res = if !req.multi {
         let strat = SingleOutputChangeStrategy::<R, MockWalletDb>::new(rule, memo, fallback, dust);
+        #[cfg(feature = "transparent")]
+        let strat = strat.with_transparent_change_policy(tpolicy(req));
         util::guarded(|| {
             strat.compute_balance::<_, u32>(
                 &params, target, anchor, &zip318, &tins[..], &touts[..], &sap_view, &orch_view, &iw_view, eph, &(),
@@ -446,6 +470,8 @@ where
             SplitPolicy::with_min_output_value(NonZeroUsize::new(req.target).expect("target > 0"), zat(req.min_split))
         };
         let strat = MultiOutputChangeStrategy::<R, MockWalletDb>::new(rule, memo, fallback, dust, split);
+        #[cfg(feature = "transparent")]
+        let strat = strat.with_transparent_change_policy(tpolicy(req));
         let meta = if req.notes < 0 {
             AccountMeta::new(None, None, None)
         } else {
@@ -556,6 +582,7 @@ fn gen_request(rng: &mut ChaCha8Rng) -> Req {
         eph: None,
         target_h, nu5_h, nu63_h, anchor_h, interval, ov_kind, sap_type,
         tin: vec![], tout: vec![], sin: vec![], sout: vec![], oin: vec![], oout: vec![], iin: vec![], iout: vec![],
+        tpol: false,
     };
     let style = rng.gen_range(0..100);
     if style < 14 {
@@ -600,14 +627,14 @@ fn gen_request(rng: &mut ChaCha8Rng) -> Req {
         }
     }
     if rng.gen_range(0..100) < 72 {
-        tune(rng, &mut q);
+        tune(rng, &mut q, 12);
     }
     q
 }
 
 /// Re-values one input so that  sum(in) = sum(out) + a*m + delta  for a boundary delta. The number
 /// of marginal fees `a` is drawn, not computed: the driver does not know the fee.
-fn tune(rng: &mut ChaCha8Rng, q: &mut Req) {
+fn tune(rng: &mut ChaCha8Rng, q: &mut Req, max_a: u128) {
     let m = q.m;
     let thr = q.thr.unwrap_or(m);
     let total_out: u128 = q.tout.iter().map(|t| t.0 as u128).sum::<u128>()
@@ -619,6 +646,8 @@ fn tune(rng: &mut ChaCha8Rng, q: &mut Req) {
     for i in 0..q.sin.len() { slots.push((1, i)); }
     for i in 0..q.oin.len() { slots.push((2, i)); }
     for i in 0..q.iin.len() { slots.push((3, i)); }
+    // the ephemeral input of a ZIP 320 second step (transparent variant only: the baseline trace keeps its stream)
+    if TFEAT && q.eph.is_some_and(|e| e.0) { slots.push((4, 0)); }
     if slots.is_empty() {
         match rng.gen_range(0..4) {
             0 => { q.tin.push((0, 1, 150)); slots.push((0, 0)); }
@@ -629,13 +658,13 @@ fn tune(rng: &mut ChaCha8Rng, q: &mut Req) {
     }
     let slot = pick(rng, &slots);
     let cur = |q: &Req, s: (u8, usize)| -> u64 {
-        match s.0 { 0 => q.tin[s.1].0, 1 => q.sin[s.1], 2 => q.oin[s.1], _ => q.iin[s.1] }
+        match s.0 { 0 => q.tin[s.1].0, 1 => q.sin[s.1], 2 => q.oin[s.1], 3 => q.iin[s.1], _ => q.eph.map(|e| e.1).unwrap_or(0) }
     };
     let total_in: u128 = q.tin.iter().map(|t| t.0 as u128).sum::<u128>()
         + q.sin.iter().chain(&q.oin).chain(&q.iin).map(|v| *v as u128).sum::<u128>()
         + q.eph.filter(|e| e.0).map(|e| e.1 as u128).unwrap_or(0);
     let others = total_in - cur(q, slot) as u128;
-    let a = rng.gen_range(0..=12u128);
+    let a = rng.gen_range(0..=max_a);
     let oin_other: u128 = q.oin.iter().enumerate().filter(|(i, _)| !(slot.0 == 2 && *i == slot.1)).map(|(_, v)| *v as u128).sum();
     let j = rng.gen_range(1..=5u128);
     let deltas: [i128; 22] = [
@@ -653,7 +682,195 @@ fn tune(rng: &mut ChaCha8Rng, q: &mut Req) {
         return;
     }
     let v = want as u64;
-    match slot.0 { 0 => q.tin[slot.1].0 = v, 1 => q.sin[slot.1] = v, 2 => q.oin[slot.1] = v, _ => q.iin[slot.1] = v }
+    match slot.0 {
+        0 => q.tin[slot.1].0 = v,
+        1 => q.sin[slot.1] = v,
+        2 => q.oin[slot.1] = v,
+        3 => q.iin[slot.1] = v,
+        _ => q.eph = Some((true, v)),
+    }
+}
+
+// ------------------------------------------------------------------------------------------------
+// the `transparent-inputs` configuration: ZIP 320 steps, transparent change, mixes
+
+/// Seeded requests for the code that exists only with `transparent-inputs`: (a) the second step of a ZIP 320 pair
+/// (ephemeral input paying TEX-like P2PKH outputs), (b) the first step (ephemeral output funded from any pool,
+/// including the canonical-crossing shape), (c) fully transparent flows under the opt-in transparent change
+/// policy, (d) mixes with shielded value (also zero-valued shielded notes and change memos) where transparent
+/// change must not be chosen, (e) the general generator with the policy drawn.
+fn gen_request_t(rng: &mut ChaCha8Rng) -> Req {
+    let mut q = gen_request(rng); // policies, rule, heights; the flows are redrawn below
+    let style = rng.gen_range(0..100);
+    if style >= 85 {
+        q.tpol = rng.gen_bool(0.6);
+        return q;
+    }
+    let (m, thr, ms) = (q.m, q.thr.unwrap_or(q.m), q.min_split);
+    q.tin.clear(); q.tout.clear(); q.sin.clear(); q.sout.clear(); q.oin.clear(); q.oout.clear(); q.iin.clear(); q.iout.clear();
+    q.eph = None;
+    let p2pkh_in = |rng: &mut ChaCha8Rng| (lattice(rng, m, thr, ms), pick(rng, &[1u8, 1, 1, 1, 1, 1, 1, 0]), pick(rng, &[150usize, 149, 151, 300, 0]));
+    let tex_out = |rng: &mut ChaCha8Rng| (lattice(rng, m, thr, ms), pick(rng, &[25usize, 25, 25, 25, 23, 0, 60]));
+    if style < 20 {
+        // (a) ZIP 320 second step
+        q.eph = Some((true, lattice(rng, m, thr, ms)));
+        let n = rng.gen_range(1..=2);
+        q.tout = (0..n).map(|_| tex_out(rng)).collect();
+        if rng.gen_bool(0.2) { q.tin = vec![p2pkh_in(rng)]; }
+        if rng.gen_bool(0.08) { q.sin = gen_values(rng, 1, m, thr, ms); }
+        q.tpol = rng.gen_bool(0.5);
+    } else if style < 42 {
+        // (b) ZIP 320 first step
+        q.eph = Some((false, lattice(rng, m, thr, ms)));
+        let n = rng.gen_range(1..=3);
+        match rng.gen_range(0..5) {
+            0 => q.tin = (0..n).map(|_| p2pkh_in(rng)).collect(),
+            1 => q.sin = gen_values(rng, n, m, thr, ms),
+            2 => q.oin = gen_values(rng, n, m, thr, ms),
+            3 => q.iin = gen_values(rng, n, m, thr, ms),
+            _ => {
+                // one Orchard note crossing into Ironwood beside the ephemeral output
+                q.oin = gen_values(rng, 1, m, thr, ms);
+                q.iout = vec![pick(rng, &[1_000_000u64, 2_000_000, 5_000_000, 3_000_000, 999_999])];
+                q.anchor_h = pick(rng, &[144u32, 288, 0, 143, 145]);
+            }
+        }
+        if rng.gen_bool(0.3) {
+            match rng.gen_range(0..4) {
+                0 => q.tout = vec![tex_out(rng)],
+                1 => q.sout = gen_values(rng, 1, m, thr, ms),
+                2 => q.iout.push(lattice(rng, m, thr, ms)),
+                _ => q.oout = gen_values(rng, 1, m, thr, ms),
+            }
+        }
+        q.tpol = rng.gen_bool(0.5);
+    } else if style < 70 {
+        // (c) fully transparent flows
+        let n = rng.gen_range(1..=3);
+        q.tin = (0..n).map(|_| p2pkh_in(rng)).collect();
+        let n = rng.gen_range(0..=3);
+        q.tout = (0..n).map(|_| tex_out(rng)).collect();
+        match rng.gen_range(0..10) {
+            0 => q.eph = Some((true, lattice(rng, m, thr, ms))),
+            1 => q.eph = Some((false, lattice(rng, m, thr, ms))),
+            _ => {}
+        }
+        q.tpol = rng.gen_bool(0.85);
+        if rng.gen_bool(0.8) { q.memo = false; }
+    } else {
+        // (d) transparent value mixed with shielded value
+        q.tpol = rng.gen_bool(0.9);
+        let n = rng.gen_range(0..=2);
+        q.tin = (0..n).map(|_| p2pkh_in(rng)).collect();
+        let n = rng.gen_range(0..=2);
+        q.tout = (0..n).map(|_| tex_out(rng)).collect();
+        let zero = rng.gen_bool(0.25); // zero-valued shielded notes: flows "fully transparent" by value
+        let vals = |rng: &mut ChaCha8Rng, n: usize| if zero { vec![0u64; n] } else { gen_values(rng, n, m, thr, ms) };
+        match rng.gen_range(0..6) {
+            0 => q.sin = vals(rng, 1),
+            1 => q.sout = vals(rng, 1),
+            2 => q.oin = vals(rng, 1),
+            3 => q.iin = vals(rng, 1),
+            4 => q.iout = vals(rng, 1),
+            _ => { q.sin = vals(rng, 1); q.sout = vals(rng, 1); }
+        }
+        if rng.gen_bool(0.15) { q.eph = Some((rng.gen_bool(0.5), lattice(rng, m, thr, ms))); }
+    }
+    if rng.gen_range(0..100) < 85 {
+        tune(rng, &mut q, 7);
+    }
+    q
+}
+
+/// Deterministic boundary sweep of the transparent configuration: flow patterns x policies x (marginal fees, delta).
+fn sweep_t(w: &mut NdjsonWriter, full: bool) {
+    // (tin, tout, sin, sout, oin, oout, iin, iout, ephemeral: 0 none / 1 input / 2 output); the tuned input is the
+    // first transparent input, else the ephemeral input, else the first shielded one
+    let patterns: [[usize; 9]; 18] = [
+        [1, 1, 0, 0, 0, 0, 0, 0, 0],
+        [2, 3, 0, 0, 0, 0, 0, 0, 0],
+        [1, 2, 0, 0, 0, 0, 0, 0, 0],
+        [1, 0, 0, 0, 0, 0, 0, 0, 0],
+        [3, 1, 0, 0, 0, 0, 0, 0, 0],
+        [0, 1, 0, 0, 0, 0, 0, 0, 1],
+        [0, 2, 0, 0, 0, 0, 0, 0, 1],
+        [1, 1, 0, 0, 0, 0, 0, 0, 1],
+        [1, 0, 0, 0, 0, 0, 0, 0, 2],
+        [1, 1, 0, 0, 0, 0, 0, 0, 2],
+        [0, 0, 1, 0, 0, 0, 0, 0, 2],
+        [0, 0, 0, 0, 1, 0, 0, 0, 2],
+        [0, 0, 0, 0, 0, 0, 1, 0, 2],
+        [0, 0, 0, 0, 1, 0, 0, 1, 2],
+        [0, 0, 1, 1, 0, 0, 0, 0, 2],
+        [1, 0, 0, 1, 0, 0, 0, 0, 0],
+        [1, 1, 1, 0, 0, 0, 0, 0, 0],
+        [0, 1, 1, 0, 0, 0, 0, 0, 1],
+    ];
+    const EPH_V: u64 = 40_000;
+    for (pi, pat) in patterns.iter().enumerate() {
+        let shielded = pat[2..8].iter().sum::<usize>() > 0;
+        for act in 0..3u8 {
+            for (ti, thr) in [None, Some(12_000u64), Some(0)].into_iter().enumerate() {
+                // quick: one threshold where the policy ignores it, the shielding policy on every other pattern of
+                // purely transparent value
+                if !full && (ti == 2 || (ti == 1 && act == 1)) { continue; }
+                for tpol in [true, false] {
+                    if !full && !tpol && !shielded && pi % 2 == 1 { continue; }
+                    for (vi, (multi, target, min_split, notes)) in [(false, 1usize, 0u64, -1i64), (true, 3, 6_000, 0)].into_iter().enumerate() {
+                        // quick: the multi-output strategy on every third pattern only
+                        if !full && vi == 1 && pi % 3 != 1 { continue; }
+                        for target_h in [250u32, 150] {
+                            // the height matters for the shielded change pool only
+                            if !full && target_h == 150 && !(shielded || !tpol) { continue; }
+                            let nu63 = target_h >= 200;
+                            for memo in [false, true] {
+                                if memo && (act == 1 || multi || !(full || pi % 4 == 0)) { continue; }
+                                let thr_eff = thr.unwrap_or(5000) as i128;
+                                let a_range = if full { 0i128..=7 } else { 2..=5 };
+                                for a in a_range {
+                                    for (di, delta) in [-1i128, 0, 1, thr_eff - 1, thr_eff, thr_eff + 1, 100_000, 100_001].into_iter().enumerate() {
+                                        if !full && di >= 6 { continue; }
+                                        if di >= 3 && thr_eff == 0 && di < 6 { continue; }
+                                        let out_each = if pat[7] > 0 { 1_000_000u64 } else { 30_000 };
+                                        let mut q = Req {
+                                            rule_kind: (pi % 2) as u8, m: 5000, g: 2, pin: 150, pout: 34,
+                                            multi, split_single: false, target, min_split, notes, meta_var: pi as u8,
+                                            act, thr, fallback: (pi % 3) as u8, memo,
+                                            eph: match pat[8] { 1 => Some((true, EPH_V)), 2 => Some((false, EPH_V)), _ => None },
+                                            target_h, nu5_h: 100, nu63_h: Some(200), anchor_h: if a % 2 == 0 { 144 } else { 145 },
+                                            interval: 144, ov_kind: if nu63 { 2 } else { 1 }, sap_type: 0,
+                                            tin: vec![(20_000, 1, 150); pat[0]],
+                                            tout: vec![(out_each, 25); pat[1]],
+                                            sin: vec![20_000; pat[2]], sout: vec![out_each; pat[3]],
+                                            oin: vec![20_000; pat[4]], oout: vec![out_each; pat[5]],
+                                            iin: vec![20_000; pat[6]], iout: vec![out_each; pat[7]],
+                                            tpol,
+                                        };
+                                        let n_out = pat[1] + pat[3] + pat[5] + pat[7];
+                                        let n_in = pat[0] + pat[2] + pat[4] + pat[6];
+                                        let (eph_in, eph_out) = (if pat[8] == 1 { EPH_V as i128 } else { 0 }, if pat[8] == 2 { EPH_V as i128 } else { 0 });
+                                        // value of the tuned input:  sum(in) = sum(out) + a*m + delta
+                                        let target_in = out_each as i128 * n_out as i128 + eph_out + a * 5000 + delta;
+                                        if pat[0] == 0 && pat[8] == 1 {
+                                            let want = target_in - 20_000 * n_in as i128;
+                                            if want < 0 { continue; }
+                                            q.eph = Some((true, want as u64));
+                                        } else {
+                                            let want = target_in - eph_in - 20_000 * (n_in as i128 - 1);
+                                            if want < 0 { continue; }
+                                            let v = want as u64;
+                                            if pat[0] > 0 { q.tin[0].0 = v } else if pat[2] > 0 { q.sin[0] = v } else if pat[4] > 0 { q.oin[0] = v } else { q.iin[0] = v }
+                                        }
+                                        w.emit(&record(&q));
+                                    }
+                                }
+                            }
+                        }
+                    }
+                }
+            }
+        }
+    }
 }
 
 /// Deterministic boundary sweep: flow patterns x policies x (number of marginal fees, delta).
@@ -680,7 +897,7 @@ fn sweep(w: &mut NdjsonWriter, full: bool) {
             notes: -1, meta_var: 0, act: 0, thr: None, fallback: 0, memo: false, eph: None, target_h, nu5_h: 100,
             nu63_h: Some(200), anchor_h: 143, interval: 144, ov_kind: if target_h >= 200 { 2 } else { 1 }, sap_type: 0,
             tin: vec![], tout: vec![], sin: vec![50_000], sout: vec![], oin: vec![100_000], oout: vec![60_000],
-            iin: vec![], iout: vec![],
+            iin: vec![], iout: vec![], tpol: false,
         }));
     }
     for (pi, pat) in patterns.iter().enumerate() {
@@ -708,6 +925,7 @@ fn sweep(w: &mut NdjsonWriter, full: bool) {
                                         sin: vec![20_000; pat[2]], sout: vec![out_each; pat[3]],
                                         oin: vec![20_000; pat[4]], oout: vec![out_each; pat[5]],
                                         iin: vec![20_000; pat[6]], iout: vec![out_each; pat[7]],
+                                        tpol: false,
                                     };
                                     let n_out = pat[1] + pat[3] + pat[5] + pat[7];
                                     let n_in = pat[0] + pat[2] + pat[4] + pat[6];
@@ -917,6 +1135,25 @@ fn main() {
             let total = w.finish();
             println!("{}", json!({"records": total, "random_outcomes": stats}));
         }
+        Some("trace-t") if TFEAT => {
+            let n: usize = args[3].parse().expect("n");
+            let sweep_mode: u8 = args.get(4).and_then(|s| s.parse().ok()).unwrap_or(0);
+            let seed = util::seed_from_env();
+            let mut rng = ChaCha8Rng::seed_from_u64(seed ^ 0x7C07_7C07_0320);
+            let mut w = NdjsonWriter::create(&args[2]);
+            if sweep_mode > 0 {
+                sweep_t(&mut w, sweep_mode > 1);
+            }
+            let mut stats = std::collections::BTreeMap::<String, usize>::new();
+            for _ in 0..n {
+                let q = gen_request_t(&mut rng);
+                let rec = record(&q);
+                *stats.entry(rec["o"]["k"].as_str().unwrap().to_string()).or_default() += 1;
+                w.emit(&rec);
+            }
+            let total = w.finish();
+            println!("{}", json!({"records": total, "random_outcomes": stats}));
+        }
         Some("exec") => {
             let reqs = util::read_ndjson(&args[2]);
             let mut w = NdjsonWriter::create(&args[3]);
@@ -930,7 +1167,7 @@ fn main() {
             println!("{}", json!({"records": w.finish()}));
         }
         _ => {
-            eprintln!("usage: c07_driver fee-replay <cases> | trace <out> <n> <sweep> | exec <in> <out>");
+            eprintln!("usage: c07_driver fee-replay <cases> | trace <out> <n> <sweep> | exec <in> <out> | (c07_driver_t only) trace-t <out> <n> <sweep>");
             std::process::exit(2);
         }
     }
